@@ -90,6 +90,8 @@ def run_word(inst, side, pw, ids, x, word, acc, desc, blob0):
         if op == "r":
             r = T.observe(inst.restore, side, b1[1])
             acc.n(transitions=1)
+            if r[0] != "ok" and T.style_relaxed():
+                return None, m                      # the library may refuse a bytes-like carrier of the blob
             if r[0] != "ok":
                 acc.violation("C08/%s/%s/restore-raises" % (F, side), {"what": "from_serialized() refuses the instance's own state",
                               "replay": rdesc, "expected": "instance", "observed": r})
@@ -275,8 +277,19 @@ def run(tier, seed):
     for name in (["ParamsEd25519"] if quick else T.SHIPPED):
         for side in "ABS":
             tasks.append(("shipped-boundary", (name, side)))
+    # application subclasses (one that adds state, one that extends start()/finish()): the restored object must behave like the
+    # never-crashed object of the SAME class
+    styled = []
+    for st in ("subclass-init", "subclass-extends", "blob-bytearray"):
+        for name in (("T11",) if quick else ("T11", "T23", "E37")):
+            if T.try_get(name)[0] is None:
+                continue
+            for side in "ABS":
+                styled.append(("style", st, ("small", (name, side, list(range(T.hint(name).q)), CONFIGS[:1] + CONFIGS[3:4]))))
+        for side in "ABS":
+            styled.append(("style", st, ("shipped", ("ParamsEd25519", side, 5, CONFIGS[1]))))
     tasks.sort(key=lambda t: -(T.hint(t[1][0]).ref.esize * (30 if t[0].startswith("shipped") else T.hint(t[1][0]).q)))
-    core.pmerge(_dispatch, tasks, acc)
+    core.pmerge(_dispatch, tasks + styled, acc)
     _default_path(acc)
     return acc
 
@@ -293,6 +306,10 @@ def _shipped_boundary_task(task):
 
 
 def _dispatch(t):
+    if t[0] == "style":
+        with T.call_style(t[1]):
+            a = _dispatch(t[2])
+        return a.tag_env("style:" + t[1])
     return {"small": _small_task, "shipped": _shipped_task, "boundary": _boundary_task, "shipped-boundary": _shipped_boundary_task}[t[0]](t[1])
 
 
